@@ -25,6 +25,15 @@ CHECKS = {
  "C15": dict(cat="other", tech="whole-program effect analysis on the monomorphic call graph + abstract interpretation of the seed flow + rustc unsafe_code lint",
    text="Static: the monomorphic cones of keygen / generate_from_seed / from_secret_key (dyn RngCore resolved via the unsize coercions present) reach no OS/entropy/time/env leaf and no static outside an allow-list (positive control: sign and SecretKey::generate do reach OS entropy); each of the 32 seed bytes reaches StdRng::from_seed unmodified and in place, that generator is what ntru_gen receives, and ntru_gen/gen_poly/sampler_z draw only from their generator parameter; the crate has no static, thread-local or unsafe code. `Every seed bit matters` is not decided.",
    note=TRUST + "std's precompiled non-generic functions are opaque leaves classified by name (rules/effects.py).", ref="4/C15"),
+ "C01": dict(cat="other", tech="predicate agreement sign/verify, budget and salt identity, message-label flow, Send/Sync + no-unsafe/no-static witnesses",
+   text="Static necessary conditions of `every honest signature verifies` under any thread schedule: the signer keeps a candidate iff its squared norm <= floor(beta^2) and the verifier accepts iff X <= the same constant; compress gets sig_bytelen-41 bytes, returns exactly that many, from_bytes stores and verify decompresses exactly those with n=N; the returned salt is the hashed draw; no branch/index depends on raw message bytes or message length; keys/signatures are Send+Sync, sign/verify take shared references (compile-pass/compile-fail witnesses with twins), no unsafe code, no static/thread-local. The lattice algebra of ffSampling (clause 1) is NOT decided.",
+   note=TRUST + "Clause 1 (signature vector on the coset and within the bound for every sampler outcome and float rounding) is not decided; the reader/writer agreement for exactly-full encodings is decided under C07 (clauses 7/8).", ref="4/C01"),
+ "C02": dict(cat="other", tech="abstract evaluation of the parameter table vs spec/PQClean; predicate extraction from verify's return value; ingredient labels; effect analysis",
+   text="Static: sig_bound/n/sig_bytelen evaluate to the re-derived specification values and PQClean's; verify returns only the constant false (decompression failed) or the comparison X <= floor(beta^2), characterised as an integer half-line (so <, <=, off-by-one constants are distinguished); X depends on H(salt,msg), body and key; it is the sum of exactly two N-term sums of squares, one of decoded coefficients (signature-only), one of centred representatives in [-6144,6144] (all inputs); verify's cone is deterministic; HashToPoint clauses shared with C14. The suite has no negative or boundary verification test.",
+   note=TRUST + "Not decided: correctness of s1 = c - s2*h through the NTT for all inputs (tables/wiring: C11; element arithmetic: C12).", ref="4/C02"),
+ "C07": dict(cat="other", tech="abstract interpretation of the codec with trace partitioning (branches, loop peeling): obligations, pushed ranges, negative zero, padding, budget and layout instances, cursor bounds",
+   text="Static, for every byte string (len <= 2^32) and n in [1,2^16]: decompress cannot panic; every pushed coefficient is within +-12159 at both push sites; negative zero cannot be emitted without the invalid flag and Some requires the flag clear; two data-dependent padding tests follow the last coefficient; each unary run is left towards acceptance only on a terminator read inside the buffer (truncated encodings rejected) and the last terminator may sit on the last buffer bit for empty and non-empty unary parts (exactly-full encodings readable); compress_coefficient's layout for all 190 coefficient classes; compress's budget on boundary classes. decompress(compress(v))=v as a function is not decided.",
+   note=TRUST + "Assumed: compress's byte indexing (prefix-sum invariant, reason in the evidence). Not decided: functional inverse-ness on all inputs.", ref="4/C07"),
 }
 NA = {
  "C17": "algebraic/numeric equivalence of two Babai reductions at run-time magnitudes; no structural clause that is both decidable and a substantial necessary condition (DESIGN.md section 4, C17)",
